@@ -333,3 +333,86 @@ class OnTimerEvent:
         local = sms.instance_state_modes[self.supvisors.mapper.local_identifier]
         return [whole('F:_state:'), contents(local.instance_states), field(local, 'master_identifier'),
                 field(sms, 'update_mark'), contents(sms.instance_state_modes)]
+
+
+# ------------------------------------------------------------------------------------------ XML-RPC failure notification
+@contract('internal_com.supervisorproxy:SupervisorProxyServer.push_notification', props=[])
+class PushNotification:
+    """ASSUMED (transport): queues the notification for the proxy of the local Supervisor, which forwards it to the main
+    thread (listener.read_notification -> fsm.on_instance_failure -> Context.on_instance_failure)"""
+    assumed = True
+    raises = ()
+    effect = 'push_notification'
+
+    def modifies(self, message):
+        return []
+
+
+@contract('internal_com.supervisorproxy:SupervisorProxyThread.handle_exception', props=['C07'])
+class HandleException:
+    """statement: 'A peer that falls silent is declared FAILED ... (at once if an XML-RPC to it fails)': when an XML-RPC
+    to a peer fails, the failure is notified for a peer in ANY active state (CHECKING, CHECKED, RUNNING - and FAILED),
+    not only for a RUNNING one; nothing is notified for the local instance nor for a peer that is not active yet.
+    The proxy runs in its own thread: the body is verified as SEQUENTIAL code (the status it reads belongs to the main
+    thread; the interleaving is not modelled)."""
+    raises = ()
+
+    def modifies(self):
+        return []
+
+    def pre_known(self):
+        """the proxy of a peer is created by SupervisorProxyServer.get_proxy from a status of the context"""
+        return self.status.supvisors_id.identifier in self.supvisors.mapper._instances
+
+    def post_effect_notified_iff_active_peer(self):
+        peer = self.status.supvisors_id.identifier != self.supvisors.mapper.local_identifier
+        return count_effects('push_notification') == (1 if peer and self.status._state in ACTIVE else 0)
+
+    def post_effect_failure_of_that_peer(self):
+        ident = self.supvisors.mapper._instances[self.status.supvisors_id.identifier]
+        return (effect_at('push_notification', 0)[0][1][0] == NotificationHeaders.INSTANCE_FAILURE.value
+                and effect_at('push_notification', 0)[0][0][0] == ident.identifier
+                if count_effects('push_notification') == 1 else True)
+
+
+# ------------------------------------------------------------------------------------------ processes of a lost instance
+# Context.invalidate_failed as a whole is not under contract yet (contracts/pending_c07_invalidate_failed.txt).  Its
+# process-level clause is decomposed: (1) which processes it hands to ProcessStatus.invalidate_identifier =
+# SupvisorsInstanceStatus.running_processes (contract below, exact definition); (2) that selection must cover every
+# process counted as running on the lost instance (lemma below: REFUTED, Appendix A11); (3) what invalidate_identifier
+# does to a selected process (contracts/c11.py, props C07 / C06).  The composition over the two loops is not proved.
+from contracts.c11 import I11
+
+
+def selected_for_invalidation(p, identifier):
+    """ProcessStatus.running_on(identifier): the guard of SupvisorsInstanceStatus.running_processes"""
+    return p._state in RUNNING_STATES and identifier in p.running_identifiers
+
+
+@contract('instancestatus:SupvisorsInstanceStatus.running_processes', props=['C07', 'C06'])
+class RunningProcesses:
+    """the processes Context.invalidate_failed invalidates for a lost instance: exactly the processes known on the
+    instance whose synthetic state is a Supervisor running state and that list the instance"""
+    raises = ()
+    returns = 'List[ProcessStatus]'
+
+    def modifies(self):
+        return []
+
+    def post_definition(self, result):
+        ident = self.supvisors_id.identifier
+        return (forall(int, lambda k: implies(0 <= k and k < len(result), exists(str, lambda n: (
+            n in self.processes and self.processes[n] is result[k]
+            and selected_for_invalidation(result[k], ident)))))
+            and forall(str, lambda n: implies(
+                n in self.processes and selected_for_invalidation(self.processes[n], ident),
+                exists(int, lambda k: 0 <= k and k < len(result) and result[k] is self.processes[n]))))
+
+
+@lemma(props=['C07', 'C06'], types={'p': 'ProcessStatus', 'identifier': 'str'})
+def every_process_listed_on_the_lost_instance_is_invalidated(p, identifier):
+    """statement C07: 'every process it was running being reported FATAL and no longer counted as running there';
+    C06: 'each managed process that was running only there' - every process that lists the lost instance (whatever
+    consistent state it is in: object invariant I11 of C11) must be among those handed to invalidate_identifier."""
+    assume(I11(p))
+    return implies(identifier in p.running_identifiers, selected_for_invalidation(p, identifier))
